@@ -1,4 +1,5 @@
 """C15 - level iteration yields every box exactly once, whatever the schedule."""
+import os
 import random
 from harness import core, gen
 from harness.props import c01
@@ -134,6 +135,56 @@ def run_case(seed):
     return out
 
 
+REAL_POOL_SCRIPT = r'''
+import os, random, sys, tempfile, shutil
+import numpy as np
+from harness import gen
+from amr_kitchen import PlotfileCooker
+seed = int(sys.argv[1])
+rng = random.Random(seed)
+pf = gen.gen_plotfile(rng, nlevels=1, nfields=(2, 3), payload='ints')
+d = tempfile.mkdtemp(dir=sys.argv[2])
+p = os.path.join(d, 'plt')
+gen.write_plotfile(pf, p)
+n = len(pf.levels[0].boxes)
+stream = PlotfileCooker(p)[0][0]
+sels = [slice(0, 0), slice(n, n + 3), slice(n, 0), [], slice(0, n), list(range(n))[::-1], slice(None, None, 2)]
+for sel in sels:
+    got = [np.asarray(a) for a in stream.iter(sel)]
+    want = [pf.levels[0].data[b][..., 0] for b in (range(n)[sel] if isinstance(sel, slice) else sel)]
+    ok = len(got) == len(want) and all(g.shape == w.shape and g.tobytes(order='F') == np.asarray(w, dtype='<f8').tobytes(order='F') for g, w in zip(got, want))
+    print('SEL', repr(sel), 'ok' if ok else 'WRONG', flush=True)
+print('DONE', flush=True)
+'''
+
+
+def real_pool_selection_case(seed):
+    """the on-demand iterator with the REAL process pool (the controlled pool cannot show a hang): empty and non-empty
+    box selections must be yielded and the iteration must END - run in a child process under a watchdog"""
+    import subprocess
+    import sys
+    out = dict(evals=1, keys=[core.khash('real-pool-iter', seed)], dist={'case=on-demand iterator with the real pool (empty selections included)': 1},
+               samples=[], violations=[], disagreements=[])
+    root = core.scratch_dir(f"c15_real_{seed}")
+    os.makedirs(root)
+    env = dict(os.environ, PYTHONPATH=core.REPO + os.pathsep + core.VERIF)
+    desc = dict(seed=seed, case_fn='real_pool_selection_case')
+    try:
+        r = subprocess.run([sys.executable, '-c', REAL_POOL_SCRIPT, str(seed), root], env=env, capture_output=True, text=True, timeout=90)
+        lines = [l for l in r.stdout.splitlines() if l.startswith(('SEL', 'DONE'))]
+        if 'DONE' not in lines:
+            out['violations'].append(dict(desc, kind='iter-selection', what='the on-demand iterator raised or died: ' + (r.stderr.strip().splitlines() or ['?'])[-1][:300]))
+        elif any(l.endswith('WRONG') for l in lines):
+            out['violations'].append(dict(desc, kind='iter-selection', what='iter(selection) did not yield the selected boxes in the requested order: ' +
+                                          '; '.join(l for l in lines if l.endswith('WRONG'))))
+    except subprocess.TimeoutExpired as e:
+        done = [l for l in (e.stdout.decode() if isinstance(e.stdout, bytes) else (e.stdout or '')).splitlines() if l.startswith('SEL')]
+        out['violations'].append(dict(desc, kind='iter-selection',
+                                      what=f"iter(selection) with the real process pool did not terminate within 90 s (selections completed before the hang: {len(done)}; "
+                                           f"the next one is number {len(done)} of [empty slice, empty slice beyond the end, reversed-bounds slice, empty list, ...])"))
+    return out
+
+
 def run(tier, seed):
     rep = core.Report(PID, tier, seed)
     pg = core.proof_gate(PID, thorough=(tier == 'thorough'))
@@ -145,6 +196,8 @@ def run(tier, seed):
     ncases = 40 if tier == 'quick' else 500
     cases = [seed * 100000 + 15000 + i for i in range(ncases)]
     for r in core.run_cases(run_case, core.with_corpus(PID, cases)):
+        rep.merge(r)
+    for r in core.run_cases(real_pool_selection_case, [seed * 100000 + 15900 + i for i in range(1 if tier == 'quick' else 4)]):
         rep.merge(r)
     rep.obligation('correspondence: Level.stream_iter_all = list(LevelDataStream.__iter__) under 4 completion orders',
                    not any(v[0].get('kind') == 'iter-sequence' for v in rep.violations))
